@@ -9,7 +9,7 @@ A plan is a dict:
   rule         : how cases are generated and what makes one distinct / non-trivial
   nontrivial   : function(event dict) -> key or None (distinct non-trivial cases are counted by key)
 """
-import os, json, subprocess, time, re
+import os, json, subprocess, time, re, shutil
 from concurrent.futures import ThreadPoolExecutor
 
 # which property owns a failing *level* conjunct (L1/L2/L3/EMB) by event kind
@@ -219,6 +219,66 @@ def stage_inserttxn(ctx, cov):
     return {"traces": [(o, "Trace_InsertTxn") for o in outs]}
 
 
+def _apalache(ctx, module_path, init, inv, length, tag):
+    out = os.path.join(ctx.wdir, "apalache", tag)
+    cmd = ["apalache-mc", "check", "--init=" + init, "--inv=" + inv, "--length=%d" % length,
+           "--out-dir=" + out, "--run-dir=" + os.path.join(out, "run"), module_path]
+    try:
+        r = subprocess.run(cmd, cwd=os.path.dirname(module_path), stdout=subprocess.PIPE, stderr=subprocess.STDOUT, text=True, timeout=1200)
+    except subprocess.TimeoutExpired:
+        return None, "timeout"
+    txt = r.stdout
+    if "The outcome is: NoError" in txt:
+        return True, txt
+    if "The outcome is: Error" in txt and "violated" in txt:
+        return False, txt
+    return None, txt
+
+
+def stage_apalache_inserttxn(ctx, cov):
+    """UNBOUNDED safety of the insertion transaction: IndInv of spec/Apa_InsertTxn.tla is inductive for arbitrary
+    insertion counts and EveryN parameters (Apalache), implies AllOrNothing / Committed, is satisfiable in every control
+    state (probes), and is NOT inductive for the stale-count variant."""
+    t0 = time.time()
+    mod = os.path.join(ctx.spec, "Apa_InsertTxn.tla")
+    runs = [("Init", "IndInv", 0, True, "base"), ("IndInit", "IndInv", 1, True, "step"), ("IndInit", "Safety", 0, True, "safety"),
+            ("IndInit", "NeverDoneInserted", 0, False, "probe1"), ("IndInit", "NeverFinishWithSnapshot", 0, False, "probe2"),
+            ("IndInit", "NeverRepair", 0, False, "probe3")]
+    res = []
+    for init, inv, length, expect, tag in runs:
+        ok, txt = _apalache(ctx, mod, init, inv, length, tag)
+        if ok is None:
+            return {"tool_error": "apalache %s/%s failed:\n%s" % (init, inv, txt[-1500:])}
+        res.append({"init": init, "inv": inv, "length": length, "holds": ok})
+        if ok != expect:
+            if expect:
+                rp = os.path.join(ctx.wdir, "replays", "apalache_%s.txt" % tag)
+                open(rp, "w").write(txt[-20000:])
+                return {"violations": [{"replay": rp, "what": "Apa_InsertTxn: %s does not hold from %s (length %d)" % (inv, init, length)}]}
+            return {"tool_error": "vacuity: probe %s was expected to be violated from IndInit" % inv}
+    # the stale-count variant (snapshot decision on the current count) must fail the inductive step
+    stale_dir = os.path.join(ctx.wdir, "apalache", "stale_src")
+    os.makedirs(stale_dir, exist_ok=True)
+    for f in ("InsertTxnOps.tla",):
+        shutil.copy(os.path.join(ctx.spec, f), stale_dir)
+    src = open(mod).read().replace("MODULE Apa_InsertTxn", "MODULE Apa_InsertTxn_stale")
+    src = src.replace("cfg.snapUsesNext = TRUE", "cfg.snapUsesNext = FALSE").replace("snapUsesNext : {TRUE}", "snapUsesNext : {FALSE}")
+    src = src.replace("ShouldCheck(cfg, count0 + 1))\n", "ShouldCheck(cfg, count0))\n", 1)
+    sm = os.path.join(stale_dir, "Apa_InsertTxn_stale.tla")
+    open(sm, "w").write(src)
+    ok, txt = _apalache(ctx, sm, "IndInit", "IndInv", 1, "stale")
+    if ok is None:
+        return {"tool_error": "apalache stale variant failed:\n%s" % txt[-1500:]}
+    if ok:
+        return {"tool_error": "the stale-count variant was expected NOT to be inductive (design counterexample) but Apalache proved it"}
+    res.append({"init": "IndInit", "inv": "IndInv (stale-count variant)", "length": 1, "holds": False, "expected": False})
+    cov["model_runs"].append({"module": "Apa_InsertTxn.tla", "tool": "apalache 0.58", "unbounded": True, "runs": res,
+                              "wall_s": round(time.time() - t0, 1)})
+    ctx.log("Apalache Apa_InsertTxn: inductive invariant (base, step, safety), 3 satisfiability probes, stale variant not inductive, in %.1fs"
+            % (time.time() - t0))
+    return {}
+
+
 def stage_removetxn(ctx, cov):
     """MC of the removal-transaction model (atomic flips: AllOrNothing holds; as coded: the known non-atomic flip shows
     as a design counterexample), then every as-coded behaviour replayed through failpoint scripts"""
@@ -418,8 +478,10 @@ PLANS = {
                      "list) whose construction returned Ok and whose result passed the full TLA+ oracle",
                 nontrivial=_key_construct),
     "C02": dict(level="model_checking", families=[("insert", 14, 16)],
-                stages=[stage_inserttxn],
-                rule="(i) the insertion transaction model (spec/InsertTxn.tla: snapshot decision, attempts with rollback, "
+                stages=[stage_inserttxn, stage_apalache_inserttxn],
+                rule="(i') UNBOUNDED: Apalache proves an inductive invariant of the insertion transaction for arbitrary insertion "
+                     "counts and EveryN parameters (spec/Apa_InsertTxn.tla: base case, inductive step, invariant => AllOrNothing / "
+                     "Committed; satisfiability probes; the stale-count variant is not inductive); (i) the insertion transaction model (spec/InsertTxn.tla: snapshot decision, attempts with rollback, "
                      "index / count / hint updates, scheduled repair and check, final restore) checked exhaustively over all "
                      "policies, counts and environment choices, with the stale-count variant as a design counterexample; every "
                      "generated behaviour replayed on the library through failpoint scripts and validated (Trace_InsertTxn); "
@@ -564,7 +626,7 @@ PLANS = {
                             "spec-generated exact vectors replayed into the implementation.",
                 nontrivial=lambda e: ((e["ev"], json.dumps(e.get("args"), sort_keys=True)) if e["ev"] == "Measure" else None)),
     "C03": dict(level="fault_enumeration", families=[("failpoints", 14, 16), ("remove", 6, 16), ("insert", 6, 16), ("flips", 6, 16), ("repair", 6, 16)],
-                stages=[stage_inserttxn, stage_removetxn],
+                stages=[stage_inserttxn, stage_apalache_inserttxn, stage_removetxn],
                 rule="(o') the removal transaction model RemoveTxn.tla (fast inverse-k=1 path, fan path with clone / restore, "
                      "post-removal repair with outer snapshot), AllOrNothing with atomic flips and its failure as coded (KF-C03-1), "
                      "all behaviours replayed through failpoint scripts (Trace_RemoveTxn); (o) the insertion transaction model InsertTxn.tla (AllOrNothing over all policies / counts / choices) and the "
